@@ -26,7 +26,7 @@ for n in (1, 2, 3):
     meta = dict(metas.get("patch%d.diff" % n, {}))
     meta.update(property=pid, origin="sub-agent given only the property record and a scratch worktree")
     ids = [pid] + extra
-    p = subprocess.run([sys.executable, os.path.join(ROOT, "tools", "seedtest.py"), pf, ",".join(ids)], capture_output=True, text=True)
+    p = subprocess.run([sys.executable, os.path.join(ROOT, "tools", "seedtest.py"), "--keep-replay", dst, pf, ",".join(ids)], capture_output=True, text=True)
     res = {}
     for line in p.stdout.splitlines():
         if line.startswith("RESULT "):
